@@ -204,7 +204,10 @@ class FFTMTF:
         self.fields = fields
         self.wavelength = wavelength
         self.num_rays = num_rays
-        self.grid_size = grid_size
+        # the DFT of the PSF is the circular autocorrelation of the padded
+        # pupil; it equals the linear one (the OTF) only when the grid is at
+        # least twice as wide as the pupil
+        self.grid_size = max(grid_size, 2 * num_rays)
 
         self.FNO = self._get_fno()
 
